@@ -932,6 +932,6 @@ func driveRegister(c *hx.Ctx) error {
 		}
 	}
 	c.Stats.Exhaustive = !c.Quick()
-	c.Stats.Rule = "index: CheckPluginIndex on a boundary corpus, all 100 valid indices, all pairs over a 14-byte alphabet and random byte strings; register: per case 4-20 scripted raw plugins (mux+ttrpc spoken directly) connect in order to one fresh Adaptation, at least one bad one (empty name, bad index from the corpus, mask with extra/negative bits, configure error/close, early close, sync error) ahead of a good one, then a sentinel, then all 13 events are fired once; non-trivial = bad and several good connections in one case; stall: the same with 1-3 peers that never register / register late / never answer Configure or Synchronize under 400 ms time-outs (clock-dependent disagreements re-run alone up to 3 times); socket: real Start in a helper subprocess per umask (quick: 40 incl. boundaries, thorough: all 512) on three nested not yet existing directories, and with external connections disabled"
+	c.Stats.Rule = "index: CheckPluginIndex on a boundary corpus, all 100 valid indices, all pairs over a 14-byte alphabet and random byte strings; register: per case 4-20 scripted raw plugins (mux+ttrpc spoken directly) connect in order to one fresh Adaptation, at least one bad one (empty name, bad index from the corpus, mask with extra/negative bits, configure error/close, early close, sync error) ahead of a good one, then a sentinel, then all 13 events are fired once; whatever the runtime fails to do within 20 s (a sentinel never synchronised, a sync block that cannot be taken, a peer whose registration step never ends: closed by the driver and recorded as not registered / never configured / never synchronised / no events) is an observation judged by the oracle, and after 3 such cases the rest of the stream is skipped; non-trivial = bad and several good connections in one case; stall: the same with 1-3 peers that never register / register late / never answer Configure or Synchronize under 400 ms time-outs (clock-dependent disagreements re-run alone up to 3 times); socket: real Start in a helper subprocess per umask (quick: 40 incl. boundaries, thorough: all 512) on three nested not yet existing directories, and with external connections disabled"
 	return nil
 }
